@@ -555,6 +555,9 @@ func (g *Gen) collectSelectors() {
 			}
 		}
 	}
+	for _, k := range sortedKeys(g.con.Lets) {
+		walk(g.con.Lets[k])
+	}
 	for _, cl := range g.con.Requires {
 		walk(cl.E)
 	}
